@@ -148,6 +148,9 @@ var vkCands = []vkCand{
 	11: {Rel: []string{"a", "a", "b"}, Types: []uint16{dns.TypeA}, Desc: "a.a.b A"},
 	12: {Rel: []string{"a", "*"}, Types: []uint16{dns.TypeA}, Desc: "a.* A (makes * an ENT)"},
 	13: {Rel: []string{"A", "b"}, Types: []uint16{dns.TypeTXT}, Desc: "A.b TXT (upper-case owner)"},
+	// the "alias a whole zone" deployment: the DNAME sits at the apex, whose NSEC/NSEC3 bitmap therefore
+	// carries SOA and DNAME together; every name below the apex is then below a DNAME
+	14: {Rel: []string{}, Types: []uint16{dns.TypeDNAME}, Role: "dname", Desc: "apex DNAME"},
 }
 
 // vkEnumZones returns every admissible subset of candidates of size <= maxOwners
@@ -218,12 +221,17 @@ func vkBuildZone(cands []int) *vkZone {
 	var all []*vkNode
 	for _, ci := range cands {
 		c := vkCands[ci]
+		if len(c.Rel) == 0 {
+			apex.Types = append(apex.Types, c.Types...)
+			apex.Dname = apex.Dname || c.Role == "dname"
+			continue
+		}
 		all = append(all, &vkNode{Name: vkJoin(c.Rel, vkApex), Types: append([]uint16(nil), c.Types...), Deleg: c.Role == "deleg", Dname: c.Role == "dname"})
 	}
 	// occlusion: anything strictly below a delegation point or a DNAME owner
 	for _, n := range all {
 		occ := false
-		for _, m := range all {
+		for _, m := range append(all[:len(all):len(all)], apex) {
 			if (m.Deleg || m.Dname) && vkIsSub(n.Name, m.Name) {
 				occ = true
 			}
